@@ -70,6 +70,16 @@ def run(out, tier, seed):
         kinds = [k for k in KINDS if k[1] in ("q_from", "q_from2", "q_from3", "q_from_named", "q_select_g")] + rng.sample(KINDS, 6)
         jobs.append({"cfg": dict(S=U3[0], P=U3[1], O=U3[2], names=names4, facade="dataset", default_union=bool(i % 2), obs="marked", obs_kind="light", store="Delegating",
                                  vocab=["plain", "bnodey"][i % 2]), "events": with_reads(decorate(evs, i), kinds, names4, i)})
+    # the same reads asked of a ConjunctiveGraph (named graphs holding triples the default graph lacks)
+    cg_kinds = [k for k in KINDS if k[0] in ("to_iso_ds", "iso", "to_iso", "canon", "diff", "iter", "len", "contains", "quads", "cbd", "all_nodes", "value", "items", "path_eval", "path_reused",
+                                             "triples_choices", "subjects", "contexts_of", "resource", "resource_transitive", "prepared", "slice")
+                or k in (("ser_ds", "nquads"), ("ser_ds", "trig"), ("ser_ds", "trix"), ("query_ds", "q_select"), ("query_ds", "q_construct"), ("query_ds", "q_ask"), ("ser_view", "turtle"))]
+    for i in range(80 if quick else 600):
+        evs = random_history(rng, U3, names4, rng.randint(4, 12), dataset=False)
+        evs = [e for e in evs if e["op"] not in ("remove",)] or evs
+        kinds = [("to_iso_ds", "")] + rng.sample(cg_kinds, 10)
+        jobs.append({"cfg": dict(S=U3[0], P=U3[1], O=U3[2], names=names4, facade="cg", default_union=True, obs="marked", obs_kind="light", vocab=["plain", "bnodey"][i % 2]),
+                     "events": with_reads(decorate(evs, i), kinds, names4, i)})
     # rdf:List structures whose cells are also typed rdf:List (a serialiser must not tidy the graph it writes)
     lq = [["s0", "p0", "s1"], ["s1", "p3", "o3"], ["s1", "p1", "o1"], ["s1", "p2", "s2"], ["s2", "p3", "o3"], ["s2", "p1", "o4"], ["s2", "p2", "o2"]]
     plain_list = [t for t in lq if t[1] != "p3"]                          # the same list without the rdf:type rdf:List statements
